@@ -1024,7 +1024,9 @@ def _adj_only_diff(a, b):
 def classify(c, reason):
     p = c.payload
     if p["kind"] == "dst":
-        return reason.split(" | ")[0]
+        sig = reason.split(" | ")[0]
+        # fixed by 0421163 (new subsystem re-checked the wall clock against time_next_adj): a regression, never a known finding
+        return "dst:regressed:new:cron:fall:late" if sig == "dst:new:cron:fall:late" else sig
     if p["kind"] != "next":
         return p["kind"] + ":" + re.sub(r"\d+", "N", reason)[:50]
     if not reason.startswith("next=") and "is not after now" not in reason:
